@@ -12,7 +12,7 @@ import (
 )
 
 func init() {
-	Registry["C01"] = Check{Level: "model_checking", Run: runC01, Replay: replayC01}
+	Registry["C01"] = Check{GC: 25, Level: "model_checking", Run: runC01, Replay: replayC01}
 }
 
 var modeName = map[ref65816.Mode]string{ref65816.Imp: "imp", ref65816.Acc: "acc", ref65816.ImM: "immM", ref65816.ImX: "immX", ref65816.Im8: "imm8", ref65816.Im16: "imm16",
